@@ -76,7 +76,7 @@ EXPORT bool _strismixedcase_s_chk(const char *dest, rsize_t dmax,
         return (false);
     }
 
-    while (*dest) {
+    while (dmax && *dest) {
 
         if (((*dest >= 'a') && (*dest <= 'z')) ||
             ((*dest >= 'A') && (*dest <= 'Z'))) {
